@@ -41,16 +41,18 @@ for _f in sorted(_g.glob(_o.path.join(_o.path.dirname(_o.path.abspath(__file__))
 # ---- GoLite: decision functions regenerated from the Go source on every run (harness/translators/golite) and proved
 # equal to the model's predicates for all arguments (coq/Check/GoLite*.v over coq/gen/GoLiteFuns.v).
 _GL_FILES = {"validate": "Check/GoLiteValidate.v", "submit": "Check/GoLiteSubmit.v", "throttle": "Check/GoLiteThrottle.v",
-             "lazy": "Check/GoLiteLazy.v", "da": "Check/GoLiteDA.v", "admit": "Check/GoLiteAdmit.v", "includer": "Check/GoLiteIncluder.v", "queue": "Check/GoLiteQueue.v", "producer": "Check/GoLiteProducer.v", "loop-filter": "Check/GoLiteLoopFilter.v", "loop-waiting": "Check/GoLiteLoopWaiting.v", "loop-chunks": "Check/GoLiteLoopChunks.v", "loop-pending": "Check/GoLiteLoopPending.v"}
+             "lazy": "Check/GoLiteLazy.v", "da": "Check/GoLiteDA.v", "admit": "Check/GoLiteAdmit.v", "includer": "Check/GoLiteIncluder.v", "queue": "Check/GoLiteQueue.v", "producer": "Check/GoLiteProducer.v", "loop-filter": "Check/GoLiteLoopFilter.v", "loop-waiting": "Check/GoLiteLoopWaiting.v", "loop-chunks": "Check/GoLiteLoopChunks.v", "loop-pending": "Check/GoLiteLoopPending.v", "publish": "Check/GoLitePublish.v"}
 _GOLITE = {
-    "C01": [("producer", "Manager.retrieveBatch with its effects (the whole batch passed on, ErrNoBatch iff it has no transactions, ONE metadata write of the cursor, the in-memory cursor moved also when that write fails; nothing on an error / no response / no batch) = the SErr / SNil / SBatch cases of Producer.produce, for all answers of the sequencing layer"),
+    "C01": [("publish", "Manager.publishBlockInternal (with Manager.retrieveBatch and Manager.updateState inside it), the orchestration of block production, evaluated against scripted collaborators whose calls are logged: for ALL worlds (which calls fail, heights, limit and backlogs, answer of the sequencing layer, pending block or not, cancelled context or not) the returned value, the complete sequence of calls WITH their arguments, and the in-memory cursor / state afterwards = Check/GoLitePublish.pub_expect; Proofs/GoLitePublishRefine.v: for every input of Producer.step the code performs the store writes of the model (cursor; early block, empty signature; final block, new signature and metadata, after Validate; state; height) in the model's order, and its refusal test = fst Throttle.limit_check, a refused attempt calling nothing"),
+            ("producer", "Manager.retrieveBatch with its effects (the whole batch passed on, ErrNoBatch iff it has no transactions, ONE metadata write of the cursor, the in-memory cursor moved also when that write fails; nothing on an error / no response / no batch) = the SErr / SNil / SBatch cases of Producer.produce, for all answers of the sequencing layer"),
             ("validate", "execValidate = Types.validate, SignedHeader.ValidateBasic = Types.validate_basic, types.Validate = Types.validate_pair")],
     "C02": [("validate", "execValidate = Types.validate (the validation the syncer applies to every received block)"),
             ("admit", "handlePotentialHeader / handlePotentialData (block/retriever.go) with their effects — result, DA-included mark, includer signal, event sent to sync — = Admission.da_admit, for all genesis data, seen-sets, items and DA heights (blob decoding by class is assumed: C12)")],
     "C03": [("loop-chunks", "the chunked Get loop of types.RetrieveWithHelpers, translated shallowly into a Gallina Fixpoint, = Get over the chunks of Admission.chunks (100 ids each, last one shorter, none empty, in order, stop at the first error), by induction for ALL id lists"),
             ("admit", "handlePotentialHeader / handlePotentialData (block/retriever.go) with their effects — result, DA-included mark, includer signal, event sent to sync — = Admission.da_admit, for all genesis data, seen-sets, items and DA heights (blob decoding by class is assumed: C12)"),
             ("validate", "isUsingExpectedSingleSequencer = Admission.is_expected_sequencer, isValidSignedData = Admission.is_valid_signed_data, SignedHeader.ValidateBasic = Types.validate_basic, Header.ValidateBasic (what go-header calls) = the non-empty proposer address test")],
-    "C04": [("producer", "Manager.retrieveBatch with its effects (the whole batch passed on, ErrNoBatch iff it has no transactions, ONE metadata write of the cursor, the in-memory cursor moved also when that write fails; nothing on an error / no response / no batch) = the SErr / SNil / SBatch cases of Producer.produce, for all answers of the sequencing layer"),
+    "C04": [("publish", "Manager.publishBlockInternal (with Manager.retrieveBatch and Manager.updateState inside it), the orchestration of block production, evaluated against scripted collaborators whose calls are logged: for ALL worlds (which calls fail, heights, limit and backlogs, answer of the sequencing layer, pending block or not, cancelled context or not) the returned value, the complete sequence of calls WITH their arguments, and the in-memory cursor / state afterwards = Check/GoLitePublish.pub_expect; Proofs/GoLitePublishRefine.v: for every input of Producer.step the code performs the store writes of the model (cursor; early block, empty signature; final block, new signature and metadata, after Validate; state; height) in the model's order, and its refusal test = fst Throttle.limit_check, a refused attempt calling nothing"),
+            ("producer", "Manager.retrieveBatch with its effects (the whole batch passed on, ErrNoBatch iff it has no transactions, ONE metadata write of the cursor, the in-memory cursor moved also when that write fails; nothing on an error / no response / no batch) = the SErr / SNil / SBatch cases of Producer.produce, for all answers of the sequencing layer"),
             ("validate", "execValidate = Types.validate")],
     "C05": [("validate", "execValidate = Types.validate")],
     "C06": [("loop-pending", "the loop of pendingBase.getPending, translated shallowly, = Throttle.get_pending (the heights lastSubmitted+1 .. height, each fetched once, in increasing order, stop at the first failing fetch), by induction for ALL watermarks and heights"),
@@ -58,14 +60,16 @@ _GOLITE = {
             ("da", "types.SubmitWithHelpers = Proxy.submit_helper (the status the retry loop of submitToDA switches on)")],
     "C07": [("includer", "IsDAIncluded, SetRollkitHeightToDAHeight, incrementDAIncludedHeight with their effects in order (Put rhb/h/h, Put rhb/h/d, SetFinal(d+1), Put d, publish by compare-and-swap; nothing after a failed step) = the per-block effects of Includer.incl_effs, for all store contents, marks and heights"),
             ("admit", "handlePotentialHeader / handlePotentialData (block/retriever.go), the only writers of the DA-included marks on a full node, with their effects — result, DA-included mark, includer signal, event sent to sync — = Admission.da_admit: a mark is set only for a blob that passed the full validation, for all genesis data, seen-sets, items and DA heights")],
-    "C08": [("loop-pending", "the loop of pendingBase.getPending, translated shallowly, = Throttle.get_pending (the heights lastSubmitted+1 .. height, each fetched once, in increasing order, stop at the first failing fetch), by induction for ALL watermarks and heights"),
+    "C08": [("publish", "Manager.publishBlockInternal (with Manager.retrieveBatch and Manager.updateState inside it), the orchestration of block production, evaluated against scripted collaborators whose calls are logged: for ALL worlds (which calls fail, heights, limit and backlogs, answer of the sequencing layer, pending block or not, cancelled context or not) the returned value, the complete sequence of calls WITH their arguments, and the in-memory cursor / state afterwards = Check/GoLitePublish.pub_expect; Proofs/GoLitePublishRefine.v: for every input of Producer.step the code performs the store writes of the model (cursor; early block, empty signature; final block, new signature and metadata, after Validate; state; height) in the model's order, and its refusal test = fst Throttle.limit_check, a refused attempt calling nothing"),
+            ("loop-pending", "the loop of pendingBase.getPending, translated shallowly, = Throttle.get_pending (the heights lastSubmitted+1 .. height, each fetched once, in increasing order, stop at the first failing fetch), by induction for ALL watermarks and heights"),
             ("loop-waiting", "the loop of PendingData.numWaitingData, translated shallowly, = Throttle.waiting_loop (the count and the heights stepped over, in order), by induction for ALL pending lists"),
             ("throttle", "pendingBase.numPending = Throttle.sub64 (uint64 subtraction with wrap-around), pendingBase.isEmpty")],
     "C09": [("loop-chunks", "the chunked Get loop of types.RetrieveWithHelpers, translated shallowly into a Gallina Fixpoint, = Get over the chunks of Admission.chunks (100 ids each, last one shorter, none empty, in order, stop at the first error), by induction for ALL id lists"),
             ("admit", "handlePotentialHeader / handlePotentialData (block/retriever.go) with their effects — result, DA-included mark, includer signal, event sent to sync — = Admission.da_admit, for all genesis data, seen-sets, items and DA heights (blob decoding by class is assumed: C12)"),
             ("da", "types.RetrieveWithHelpers = Proxy.retrieve_helper on every path before the chunked Get loop (GetIDs error classes by message text, nil / empty id list)")],
     "C10": [("queue", "sequencers/single/queue.go AddBatch / Next / batchKey with their datastore writes (Put before the append, Delete of the head record) and their effect on the queue object = Queue.step_mem, for all queue contents, sequence numbers, bounds and batches (Load, a loop over a datastore query, is not translated)")],
-    "C11": [("producer", "Manager.retrieveBatch with its effects (the whole batch passed on, ErrNoBatch iff it has no transactions, ONE metadata write of the cursor, the in-memory cursor moved also when that write fails; nothing on an error / no response / no batch) = the SErr / SNil / SBatch cases of Producer.produce, for all answers of the sequencing layer"),
+    "C11": [("publish", "Manager.publishBlockInternal (with Manager.retrieveBatch and Manager.updateState inside it), the orchestration of block production, evaluated against scripted collaborators whose calls are logged: for ALL worlds (which calls fail, heights, limit and backlogs, answer of the sequencing layer, pending block or not, cancelled context or not) the returned value, the complete sequence of calls WITH their arguments, and the in-memory cursor / state afterwards = Check/GoLitePublish.pub_expect; Proofs/GoLitePublishRefine.v: for every input of Producer.step the code performs the store writes of the model (cursor; early block, empty signature; final block, new signature and metadata, after Validate; state; height) in the model's order, and its refusal test = fst Throttle.limit_check, a refused attempt calling nothing"),
+            ("producer", "Manager.retrieveBatch with its effects (the whole batch passed on, ErrNoBatch iff it has no transactions, ONE metadata write of the cursor, the in-memory cursor moved also when that write fails; nothing on an error / no response / no batch) = the SErr / SNil / SBatch cases of Producer.produce, for all answers of the sequencing layer"),
             ("queue", "sequencers/single/queue.go AddBatch / Next / batchKey with their datastore writes (Put before the append, Delete of the head record) and their effect on the queue object = Queue.step_mem, for all queue contents, sequence numbers, bounds and batches (Load, a loop over a datastore query, is not translated)")],
     "C16": [("loop-chunks", "the chunked Get loop of types.RetrieveWithHelpers, translated shallowly into a Gallina Fixpoint, = Get over the chunks of Admission.chunks (100 ids each, last one shorter, none empty, in order, stop at the first error), by induction for ALL id lists"),
             ("loop-filter", "the size filter loop of da/jsonrpc client SubmitWithOptions, translated shallowly, = Proxy.filter_loop (what is submitted is the model's longest fitting prefix; the oversize flag), by induction for ALL blob lists"),
@@ -84,6 +88,8 @@ for _k, _groups in _GOLITE.items():
     _e["technique"] = _e.get("technique", "") + "; decision functions translated from the Go source on every run (go/ast -> deep-embedded Gallina AST) and proved equal to the model's predicates"
 
 # property files that state theorems over the translated code need the translation's files built with them
-for _k, _extra in {"C10": ["Model/GoLite.v", "Check/GoLiteTactics.v", "Check/GoLiteQueue.v", "Proofs/GoLiteQueueRefine.v"],
+for _k, _extra in {"C04": ["Model/GoLite.v", "Check/GoLiteTactics.v", "Check/GoLitePublish.v", "Proofs/GoLitePublishRefine.v"],
+                   "C08": ["Model/GoLite.v", "Check/GoLiteTactics.v", "Check/GoLitePublish.v", "Proofs/GoLitePublishRefine.v"],
+                   "C10": ["Model/GoLite.v", "Check/GoLiteTactics.v", "Check/GoLiteQueue.v", "Proofs/GoLiteQueueRefine.v"],
                    "C03": ["Model/GoLite.v", "Check/GoLiteTactics.v", "Check/GoLiteAdmit.v", "Proofs/GoLiteAdmitRefine.v"]}.items():
     REGISTRY[_k]["coq_files"] = list(REGISTRY[_k].get("coq_files", [])) + [f for f in _extra if f not in REGISTRY[_k].get("coq_files", [])]
